@@ -180,6 +180,22 @@ class Proxy:
 def ssh_main(argv):
     cmd = argv[-1].replace('/var/tmp/rjrssync/rjrssync', os.environ['FAKE_SSH_BINARY'])
     plan = json.loads(os.environ.get('MITM_PLAN', '{"op": "none"}'))
+    # several ssh sessions of one run (source and destination both remote): number them in launch order;
+    # session k logs to $MITM_LOG.k / $MITM_DOER_CMD_LOG.k and only session plan["session"] is manipulated
+    sdir = os.environ.get('MITM_SESSION_DIR')
+    if sdir:
+        k = 0
+        while True:
+            try:
+                os.close(os.open(os.path.join(sdir, 'session%d' % k), os.O_CREAT | os.O_EXCL | os.O_WRONLY))
+                break
+            except FileExistsError:
+                k += 1
+        for v in ('MITM_LOG', 'MITM_DOER_CMD_LOG'):
+            if os.environ.get(v):
+                os.environ[v] = os.environ[v] + '.%d' % k
+        if plan.get('session', 0) != k:
+            plan = {'op': 'none'}
     env = dict(os.environ)
     if os.environ.get('MITM_DOER_CMD_LOG'):
         env['RJRSSYNC_VERIF_CMD_LOG'] = os.environ['MITM_DOER_CMD_LOG']     # the remote doer's own command log
